@@ -14,6 +14,19 @@ def configs(tier, seed):
     return cfgs
 
 
+def compare(w, rr):
+    from .driver import _same
+    if not rr.get("ok"):
+        return "real code raised: %s" % rr.get("error")
+    if rr.get("violated"):
+        return "real pipeline violates the property on a path witness: %s" % rr["violated"][:3]
+    if not _same(w["expected"]["txt"], rr["obs"].get("txt")):
+        return "loaded table differs: twin %r real %r" % (w["expected"]["txt"], rr["obs"].get("txt"))
+    if sorted(w["expected"]["accepted"]) != rr["obs"].get("accepted"):
+        return "accepted formats differ: twin %r real %r" % (w["expected"]["accepted"], rr["obs"].get("accepted"))
+    return None
+
+
 def signature(prop, cfg, viol):
     from .driver import strip_idx
     return "%s:%s:%s" % (prop, cfg.get("kind"), strip_idx(viol["name"]))
